@@ -585,6 +585,23 @@ class Rmcp(object):
     def _inc_sequence_number(self):
         self.next_sequence_number = (self.next_sequence_number + 1) % 64
 
+    def _drain_socket(self):
+        """Discard the datagrams an earlier request left in the socket.
+
+        Nothing that arrived before a request is sent can be its answer;
+        left unread it would use up the receive budget of this request, whose
+        own reply would then be left for the next one, and so on.
+        """
+        timeout = self._sock.gettimeout()
+        self._sock.settimeout(0)
+        try:
+            while True:
+                self._sock.recvfrom(4096)
+        except OSError:
+            pass
+        finally:
+            self._sock.settimeout(timeout)
+
     def _send_and_receive(self, target, lun, netfn, cmdid, payload):
         """Send and receive data using RMCP interface.
 
@@ -623,6 +640,8 @@ class Rmcp(object):
                     bridge_header.cmdid = constants.CMDID_SEND_MESSAGE
             else:
                 tx_data = encode_ipmb_msg(header, payload)
+
+            self._drain_socket()
 
             retry = 0
             while retry <= self.max_retries:
